@@ -7,11 +7,13 @@
   (`_prefetch_thread`, one per `_start_prefetch`), the server.  One action = one atomic region of the code:
     thread : tCheck (cap test under _prefetch_lock) · tAlloc (request number under sftp._lock) ·
              tSend (packet on the wire) · tReg (`_prefetch_extents[num] = …` under _prefetch_lock)
-    server : serve k (answer the oldest request; k = how many bytes the handle chose to return)
+    server : serve k (answer the oldest request; k = how many bytes the handle chose to return) ·
+             serveFail c (answer it with error status c instead)
     reader : rOp (start an API call) · rStep (one shared access — receive a response / locked region of
              `_async_response` / allocate / send — followed by the reader-local computation up to the next one)
   All interleavings = all action lists.  Mirrors the code *after* the C28 fix:
-    * a STATUS answer to a prefetch request drops its extent (and EOF is not saved as an exception),
+    * a STATUS answer to a prefetch request drops its extent (EOF is not saved as an exception, any other
+      error is and is raised by the next `_check_exception`),
     * readv does not call _start_prefetch with an empty request list.
   Mathlib-free, executable.
 -/
@@ -100,6 +102,7 @@ def takeBuf (bufs : List (Nat × Bytes)) (idx realpos size : Nat) : List (Nat ×
 inductive Resp where
   | data (d : Bytes)
   | eof
+  | err (code : Nat)
   deriving Repr, DecidableEq
 
 inductive Owner where
@@ -162,11 +165,14 @@ structure St where
   realpos : Nat
   pc : Pc
   out : List (Nat × Option Nat × Bytes)
+  saved : Option Nat
+  raised : List (Nat × Nat)
   deriving Repr
 
 def init (file : Bytes) (maxReq : Nat) : St :=
   { file, maxReq, bufRead := 8192, fuel := 1000000, info := [], c2s := [], s2c := [], threads := [],
-    extents := [], bufs := [], done := false, prefetching := false, realpos := 0, pc := .idle, out := [] }
+    extents := [], bufs := [], done := false, prefetching := false, realpos := 0, pc := .idle, out := [],
+    saved := none, raised := [] }
 
 inductive Op where
   | prefetch (fileSize : Nat) (cap : Option Nat)
@@ -177,6 +183,7 @@ inductive Op where
 
 inductive Act where
   | serve (k : Nat)
+  | serveFail (code : Nat)
   | tCheck (i : Nat)
   | tAlloc (i : Nat)
   | tSend (i : Nat)
@@ -218,6 +225,12 @@ def advance : Nat → St → RCtx → St
           else { s with pc := .recvPf c1 }
       else { s with pc := .allocSync c1 }
 
+/-- `_async_response` saves the exception of an error status *before* it enters the locked region -/
+def savedOf (r : Resp) (old : Option Nat) : Option Nat :=
+  match r with
+  | .err c => some c
+  | _ => old
+
 /-- the locked region of `_async_response` (precondition: the extent is registered) -/
 def asyncResponse (s : St) (num : Nat) (r : Resp) : Option St :=
   match dictGet? s.extents num with
@@ -228,6 +241,17 @@ def asyncResponse (s : St) (num : Nat) (r : Resp) : Option St :=
     match r with
     | .data d => some { s with bufs := dictSet s.bufs off d, extents := ext', done := done' }
     | .eof => some { s with extents := ext', done := done' }
+    | .err _ => some { s with extents := ext', done := done' }
+
+/-- the running read raises `code` (an IOError passes through BufferedFile.read; what it had collected is lost) -/
+def raiseRead (s : St) (c : RCtx) (code : Nat) : St :=
+  { s with raised := s.raised ++ [(c.start, code)], pc := .idle }
+
+/-- `_check_exception()` after `_read_response()` in `_read_prefetch`, then back to the loop -/
+def afterCheck (s : St) (c : RCtx) : St :=
+  match s.saved with
+  | some code => raiseRead { s with saved := none } c code
+  | none => advance s.fuel s c
 
 def startPrefetch (s : St) (chunks : List Chunk) (cap : Option Nat) : St :=
   { s with prefetching := true, done := false, threads := s.threads ++ [{ st := .idle chunks, cap := cap }] }
@@ -254,6 +278,13 @@ def step (s : St) : Act → Option St
         let avail := min i.len (s.file.length - i.off)
         let r := if avail = 0 then Resp.eof else Resp.data (slice s.file i.off (max 1 (min k avail)))
         some { s with c2s := rest, s2c := s.s2c ++ [(num, r)] }
+  | .serveFail code =>
+    match s.c2s with
+    | [] => none
+    | num :: rest =>
+      match s.info[num]? with
+      | none => none
+      | some _ => some { s with c2s := rest, s2c := s.s2c ++ [(num, Resp.err code)] }
   | .tCheck i =>
     match s.threads[i]? with
     | some ⟨.idle (c :: rest), cap⟩ =>
@@ -298,12 +329,12 @@ def step (s : St) : Act → Option St
       | (num, r) :: rest =>
         let s1 := { s with s2c := rest }
         match s.info[num]? with
-        | some ⟨_, _, .pf _⟩ => some { s1 with pc := .dispPf c num r }
-        | _ => some (advance s.fuel s1 c)
+        | some ⟨_, _, .pf _⟩ => some { s1 with pc := .dispPf c num r, saved := savedOf r s1.saved }
+        | _ => some (afterCheck s1 c)
     | .dispPf c num r =>
       match asyncResponse s num r with
       | none => none
-      | some s1 => some (advance s.fuel s1 c)
+      | some s1 => some (afterCheck s1 c)
     | .allocSync c =>
       some { s with info := s.info ++ [⟨s.realpos, c.size, .sync⟩], pc := .sendSync c s.info.length }
     | .sendSync c num => some { s with c2s := s.c2s ++ [num], pc := .recvSync c num }
@@ -319,9 +350,10 @@ def step (s : St) : Act → Option St
             let c' := { c with acc := c.acc ++ d }
             if d.length = 0 then some (finish s2 c') else some (advance s.fuel s2 c')
           | .eof => some (finish s1 c)
+          | .err code => some (raiseRead s1 c code)
         else
           match s.info[n']? with
-          | some ⟨_, _, .pf _⟩ => some { s1 with pc := .dispSync c num n' r }
+          | some ⟨_, _, .pf _⟩ => some { s1 with pc := .dispSync c num n' r, saved := savedOf r s1.saved }
           | _ => some s1
     | .dispSync c num n' r =>
       match asyncResponse s n' r with
